@@ -60,6 +60,10 @@ func (ps *PartitionSet) AddRange(partName, modelName string, start, end, modulo 
 			return
 		}
 		ps.partitions[i] = partitionIndex
+		// next position would be past the end (and i+modulo may overflow)
+		if modulo > end-i {
+			break
+		}
 	}
 	return
 }
